@@ -61,6 +61,7 @@ pub fn install_state_hook() {
                 new: new.into(),
                 pure_write,
                 epoch,
+                now_us: vsim::peek_now_us(),
             });
         }
     })));
@@ -637,6 +638,21 @@ impl World {
         }
     }
 
+    /// jump the clock to the next timer (the engine's tick) and fire it
+    pub fn tick(&mut self) -> bool {
+        if vsim::advance_to_next_timer() {
+            let now = vsim::peek_now_us();
+            vsim::log("TICK");
+            let mut g = self.rec.lock().unwrap();
+            let qidx = self.qidx;
+            g.rec.ops.push(OpRec { seq: vsim::seq(), qidx, op: "tick".into(), detail: now.to_string() });
+            g.rec.count("driver.timer_advance");
+            true
+        } else {
+            false
+        }
+    }
+
     fn apply_faults(&mut self) -> bool {
         let due: Vec<FaultOp> = self.sc.faults.iter().filter(|f| f.at_q == self.qidx).cloned().collect();
         let mut any = false;
@@ -795,9 +811,7 @@ impl World {
             let later = self.sc.starts.iter().any(|s| s.at_q >= self.qidx) || self.sc.faults.iter().any(|f| f.at_q >= self.qidx);
             if self.ticks_left > 0 {
                 self.ticks_left -= 1;
-                if vsim::advance_to_next_timer() {
-                    vsim::log("TICK");
-                    self.rec.lock().unwrap().rec.count("driver.timer_advance");
+                if self.tick() {
                     continue;
                 }
             }
